@@ -21,16 +21,35 @@ import (
 
 // shared instances
 var (
-	FrameLz4    = frame.NewCodecWithCompression(&lz4.Compressor{})
-	FrameSnappy = frame.NewCodecWithCompression(&snappy.Compressor{})
-	RawLz4      = frame.NewRawCodecWithCompression(&lz4.Compressor{})
-	SegPlain    = segment.NewCodec()
-	SegLz4      = segment.NewCodecWithCompression(&lz4.Compressor{})
-	Lz4         = lz4.Compressor{}
-	Snappy      = snappy.Compressor{}
-	ListOfInt, _    = datacodec.NewList(datatype.NewList(datatype.Int))
+	FrameLz4            = frame.NewCodecWithCompression(&lz4.Compressor{})
+	FrameSnappy         = frame.NewCodecWithCompression(&snappy.Compressor{})
+	RawLz4              = frame.NewRawCodecWithCompression(&lz4.Compressor{})
+	SegPlain            = segment.NewCodec()
+	SegLz4              = segment.NewCodecWithCompression(&lz4.Compressor{})
+	Lz4                 = lz4.Compressor{}
+	Snappy              = snappy.Compressor{}
+	ListOfInt, _        = datacodec.NewList(datatype.NewList(datatype.Int))
 	MapVarcharVarint, _ = datacodec.NewMap(datatype.NewMap(datatype.Varchar, datatype.Varint))
+	udtType, _          = datatype.NewUserDefined("ks", "t", []string{"a", "b"}, []datatype.DataType{datatype.Int, datatype.Varchar})
+	UdtCodec, _         = datacodec.NewUserDefined(udtType)
+	TupleCodec, _       = datacodec.NewTuple(datatype.NewTuple(datatype.Int, datatype.Varchar))
 )
+
+// two Go struct types for the same UDT / tuple: fields matched by name (case-insensitively) and by tag,
+// declared in different orders - each goroutine uses its own
+type udtA struct {
+	A int32
+	B string
+}
+type udtB struct {
+	Second string `cassandra:"b"`
+	Extra  bool
+	First  int32 `cassandra:"a"`
+}
+type tupA struct {
+	N int32
+	S string
+}
 
 func payload(n int, seed byte) []byte {
 	b := make([]byte, n)
@@ -194,6 +213,10 @@ func Scenarios(three bool) []Scenario {
 		{"collections", [][]Op{
 			{valueOp("list-a", ListOfInt, []int32{1, 2, 3}, func() interface{} { return &[]int32{} }), valueOp("map-a", MapVarcharVarint, map[string]*big.Int{"k": bigNeg(33)}, func() interface{} { return &map[string]*big.Int{} })},
 			{valueOp("list-b", ListOfInt, []int32{-7}, func() interface{} { return &[]int32{} }), valueOp("map-b", MapVarcharVarint, map[string]*big.Int{"k": bigNeg(12)}, func() interface{} { return &map[string]*big.Int{} })},
+		}},
+		{"structs", [][]Op{
+			{valueOp("udt-a", UdtCodec, udtA{A: 41, B: "a-side"}, func() interface{} { return &udtA{} }), valueOp("tuple-a", TupleCodec, tupA{N: 7, S: "a-tuple"}, func() interface{} { return &tupA{} })},
+			{valueOp("udt-b", UdtCodec, udtB{Second: "b-side", First: -9}, func() interface{} { return &udtB{} }), valueOp("udt-b-map", UdtCodec, map[string]interface{}{"a": int32(3), "b": "b-map"}, func() interface{} { return &udtB{} })},
 		}},
 		{"compressors", [][]Op{
 			{compOp("lz4len-a", Lz4.CompressWithLength, Lz4.DecompressWithLength, 400, 'a'), compOp("snappy-a", Snappy.CompressWithLength, Snappy.DecompressWithLength, 70, 'a')},
